@@ -8,7 +8,7 @@ from core import *
 ID = 'C17'
 
 G_IN, G_OUT, G_BACK = 'pybtex.database.input', 'pybtex.database.output', 'pybtex.backends'
-ENCODINGS = ['utf-8', 'latin-1', 'ascii']            # codec ids of Model/EntryPoints.v codec_of
+ENCODINGS = ['utf-8', 'latin-1', 'ascii', 'utf-16']   # codec ids of Model/EntryPoints.v codec_of
 
 # ----------------------------------------------------------------------------------------
 # sandbox directory (created once in the main process, inherited by the forked workers)
@@ -323,16 +323,21 @@ def probes():
         class ProbeParserB(ProbeParserT):
             unicode_io = False
             default_suffix = '.pb'
+        def chunks(payload):
+            # "~": return without writing; otherwise one write per "|"-separated chunk
+            return [] if payload == '~' else payload.split('|')
         class ProbeWriterT(BaseWriter):
             unicode_io = True
             def write_stream(self, bib_data, stream):
                 head_check(bib_data)
-                stream.write(bib_data)
+                for c in chunks(bib_data):
+                    stream.write(c)
         class ProbeWriterB(BaseWriter):
             unicode_io = False
             def write_stream(self, bib_data, stream):
                 head_check(bib_data)
-                stream.write(bib_data.encode(self.encoding))
+                for c in chunks(bib_data):
+                    stream.write(c.encode(self.encoding))
         _PROBES = {'PT': ProbeParserT, 'PB': ProbeParserB, 'WT': ProbeWriterT, 'WB': ProbeWriterB}
     return _PROBES
 
@@ -1053,7 +1058,10 @@ def oracle_writer(arg, out):
     enc = ENCODINGS[codec]
     if out[0] != 0:
         return None
-    text = S(d)
+    payload = S(d)
+    if not u and (payload == '~' or '|' in payload):
+        return None         # the binary probe encodes chunk by chunk: what it writes is its own business
+    text = '' if payload == '~' else payload.replace('|', '')
     try:
         raw = list(text.encode(enc))
     except UnicodeEncodeError:
@@ -1075,6 +1083,9 @@ def _sig_a(kind, fn, arg, detail):
             and isinstance(detail, str) and detail.startswith('to_bytes [yaml, ') and 'is not the to_string document encoded' in detail)
 def _sig_b(kind, fn, arg, detail):
     # an empty document and an encoding that writes a byte-order mark: the file stays empty, to_bytes is the BOM
+    if kind == 'oracle' and fn == 5:
+        # the same with the probe writer: nothing written ("~"), utf-16, a named file
+        return arg[0] == 1 and arg[1] == 3 and arg[2] == 2 and arg[3] == [126] and arg[4] == [1] and 'write_file did not write exactly' in str(detail)
     return (kind == 'oracle' and fn == 7 and REAL_FORMATS[arg[1]][0] == 'bibtex' and REAL_ENCODINGS[arg[2]] == 'utf-16'
             and arg[0] == [[], []] and isinstance(detail, str) and 'differs from to_bytes' in detail and detail.startswith('W:'))
 KNOWN_SIGNATURES = {'FC17a': _sig_a, 'FC17b': _sig_b}
@@ -1085,6 +1096,36 @@ def replay_known(finding):
         return None
     out = FUNCS[pin['fn']][1](norm(pin['arg']))
     return oracle(pin['fn'], norm(pin['arg']), out)
+
+# ----------------------------------------------------------------------------------------
+# per-run table lemma: the installed entry points and _DEFAULT_PLUGINS of this environment are
+# written out as Coq terms and Proofs/Plugins.v installed_table_ok is evaluated on them
+def coq_str(x):
+    return '[' + '; '.join(str(ord(c)) for c in x) + ']%N'
+
+def generated_obligations(ck):
+    table, classes = real_installed()
+    lines = ['From Pybtex Require Import Base.Prelude Base.PyStr Model.Plugins Proofs.Plugins.',
+             'Definition inst : eps := [',
+             ';\n'.join('  ((%s, %s), %d%%N)' % (coq_str(g), coq_str(n), k) for (g, n, k) in table),
+             '].',
+             'Definition df : dflts := [',
+             ';\n'.join('  (%s, %s)' % (coq_str(g), coq_str(d)) for g, d in defaults_table()),
+             '].',
+             '(* every installed suffix / alias resolves to a class that a format name resolves to as well,',
+             '   and every default plug-in exists *)',
+             'Lemma installed_table_ok_now : installed_table_ok inst df = true',
+             '  /\\ forallb (fun gd => match find_plugin [] inst df (fst gd) NNone None with Ok _ => true | _ => false end) df = true.',
+             'Proof. vm_compute. split; reflexivity. Qed.',
+             'Print Assumptions installed_table_ok_now.']
+    path = os.path.join(ck.rundir, 'C17Tables.v')
+    with open(path, 'w') as f:
+        f.write('\n'.join(lines) + '\n')
+    rc, log = coqc_file(path, ck.rundir)
+    ok = (rc == 0 and 'Closed under the global context' in log)
+    return [{'name': 'installed_table_ok_now',
+             'what': 'regenerated table of %d installed entry points and %d default plug-ins: every suffix and alias resolves (through the model of find_plugin) to a class some format name resolves to; every default exists' % (len(table), len(defaults_table())),
+             'ok': ok, 'log': log}]
 
 # ----------------------------------------------------------------------------------------
 RULE = {
@@ -1272,19 +1313,19 @@ def gen_open(tier, rng):
         for which in (0, 1, 2):
             yield ('open_fileobject', 3, [[H1], [0, 7], mode, [], ['tex'], 0, kp_none, which])
 
-TEXTS = ['', 'abc', 'café', 'a\r\nb\rc\n', 'Ж€', '!err', '?crash', '\ud800', '\U0001F600 x', 'x\n', '\r', 'ÿĀ', '\x7f\x80']
-RAWS = [b'', b'abc', b'caf\xc3\xa9', b'caf\xe9', b'\xff\xfe', b'a\r\nb', b'!e', b'?c', b'\xe2\x82\xac', b'\xc0\x80', b'\xed\xa0\x80', b'\xf0\x9f\x98\x80', b'\xf4\x90\x80\x80', b'\xe2\x82', b'\r\r\n']
+TEXTS = ['', 'abc', 'café', 'a\r\nb\rc\n', 'Ж€', '!err', '?crash', '\ud800', '\U0001F600 x', 'x\n', '\r', 'ÿĀ', '\x7f\x80', '~', 'a|b', '|', 'é||€', '~|', '\ufeffx']
+RAWS = [b'\xff\xfea\x00', b'\xfe\xff\x00a', b'a\x00\xe9\x00', b'a', b'\x00\xd8', b'\x3d\xd8\x00\xde', b'\xff\xfe\x00\xdc', b'\xff\xfe\xff\xfe', b'', b'abc', b'caf\xc3\xa9', b'caf\xe9', b'\xff\xfe', b'a\r\nb', b'!e', b'?c', b'\xe2\x82\xac', b'\xc0\x80', b'\xed\xa0\x80', b'\xf0\x9f\x98\x80', b'\xf4\x90\x80\x80', b'\xe2\x82', b'\r\r\n']
 
 def gen_glue(tier, rng):
     rnd_texts = list(TEXTS)
     rnd_raws = list(RAWS)
     n = 60 if tier == 'quick' else 600
-    pool = 'ab \r\n!?éÿĀ€\U0001F600\ud800'
+    pool = 'ab \r\n!?éÿĀ€\U0001F600\ud800|~'
     for _ in range(n):
         rnd_texts.append(''.join(rng.choice(pool) for _ in range(rng.randint(0, 6))))
         rnd_raws.append(bytes(rng.choice([97, 13, 10, 33, 0x80, 0xbf, 0xc2, 0xc3, 0xa9, 0xe0, 0xe2, 0x82, 0xac, 0xed, 0xa0, 0xf0, 0x9f, 0xf4, 0x8f, 0x90, 0xff]) for _ in range(rng.randint(0, 5))))
     for u in (0, 1):
-        for codec in (0, 1, 2):
+        for codec in (0, 1, 2, 3):
             for t in rnd_texts:
                 yield ('reader_glue', 4, [u, codec, 0, t])
                 yield ('reader_glue', 4, [u, codec, 2, [0, [0, t]]])
@@ -1320,7 +1361,7 @@ def gen_module(tier, rng):
     payloads = ['abc', 'café \r\n x', '!e']
     for setup in setups:
         for fmt in fmts:
-            for codec in ((0, 1) if tier == 'quick' else (0, 1, 2)):
+            for codec in ((0, 1) if tier == 'quick' else (0, 1, 2, 3)):
                 for t in payloads:
                     yield ('module_level', 6, [setup, codec, 0, fmt, t, [], []])
                     yield ('module_level', 6, [setup, codec, 3, fmt, t, [], []])
